@@ -145,4 +145,3 @@ func parseKVInt(s string) map[string]int {
 	}
 	return out
 }
-
